@@ -300,7 +300,7 @@ def run(ctx):
         ctx.require(f"hook:{k}.defuzzify", f"calls:{k}:batch", f"calls:{k}:single", f"piece:{k}:empty-set", f"piece:{k}:plain")
     for k in ("Bisector", "MeanOfMaximum", "SmallestOfMaximum", "LargestOfMaximum"):
         ctx.require(f"piece:{k}:tie")
-    ctx.require("hook:Operation.midpoints", "law:SOM<=MOM<=LOM", "law:batch==per-set", "law:centroid-translation", "resolution:1", "resolution:1000", "event:reuse after resolution change", "event:reuse after degrees change")
+    ctx.require("law:SOM<=MOM<=LOM", "law:batch==per-set", "law:centroid-translation", "resolution:1", "resolution:1000", "event:reuse after resolution change", "event:reuse after degrees change")
 
 
 def has_jump(spec):
